@@ -25,6 +25,8 @@ def gen_cases(chk, table, n, big=0):
     for i in range(big):
         rng = chk.rng('c11/big/%d' % i)
         g = G.ModGen(rng, table, text_safe=False, big=True)
+        # at least one large low-entropy data item per run (compressor pool exhaustion), in a case of one to two buffers
+        g.lowent = i == 1 or (i > 1 and rng.random() < 0.4)
         # above two compression buffers (2 * 256 KiB) of raw bytes for the first, one to two for the others
         cases.append(g.case(nmodules=1, n_items=150 if i == 0 else rng.choice([30, 60]), with_exec=True))
     return cases
